@@ -104,6 +104,7 @@ def run_C14(ctx, R):
     from .rules import own
     _per_config(ctx, R, _inl(own.own5))
     _per_config(ctx, R, own.dbl1)
+    _per_config(ctx, R, _inl(own.own9))
     for cfg in ctx.configs():
         r = Results(config=cfg)
         eff.eff1_ir(ctx.ir(cfg), r)
@@ -500,6 +501,7 @@ def run_C07(ctx, R):
     _per_config(ctx, R, tree.tab14)
     _per_config(ctx, R, own.ref_constructors)
     _per_config(ctx, R, own.own8)
+    _per_config(ctx, R, _inl(own.own9))
 
 
 def run_C08(ctx, R):
